@@ -128,6 +128,7 @@ def run_C20(tier, seed, t0):
 def _layout_specs(prop, tier, seed):
     from . import templates
     tl = list(templates.CURATED) + templates.adjacency() + templates.between() + templates.SYMBOLIC_ALIGN
+    tl += templates.random_programs(seed, 400 if tier == 'thorough' else 60)
     gap_bits, k_bits, max_paths = 23, 34, 600
     if tier == 'thorough':
         tl += templates.enumerated(2, seed, 60)
@@ -137,7 +138,7 @@ def _layout_specs(prop, tier, seed):
     for name, lines in tl:
         for c in (False, True):
             specs.append(('harness.layout', 'layout_task', (prop, name, lines, c, gap_bits, k_bits, max_paths)))
-    return specs, dict(templates=len(tl), template_lines='<= %d' % max(len(l) for _, l in tl),
+    return specs, dict(templates=len(tl), random_programs='%d seeded by VERIF_SEED=%d (each decided for all values of its symbols)' % (400 if tier == 'thorough' else 60, seed), template_lines='<= %d' % max(len(l) for _, l in tl),
                        gaps='each gap 0..2^%d bytes (symbolic file size)' % gap_bits,
                        li_values='signed %d-bit' % k_bits, modes='compression off and on',
                        alignments='1,2,3,4,5,8,16,64,4096; two templates with symbolic alignments 1..16 and gaps < 256')
@@ -183,6 +184,7 @@ def run_C09(tier, seed, t0):
 def _product_specs(prop, tier, seed):
     from . import templates
     tl = list(templates.CURATED) + templates.adjacency() + templates.between()
+    tl += templates.random_programs(seed, 400 if tier == 'thorough' else 60)
     gap_bits, k_bits, max_paths = 23, 34, 600
     if tier == 'thorough':
         tl += templates.enumerated(2, seed, 60)
